@@ -690,7 +690,9 @@ def gen_query(rnd, falsy=True, max_depth=3, quantifiers=True):
 
 def gen_subquery_query(rnd):
     """a comparison with a nested sub-query operand `an(entity(y, C(y)))`, alone or combined with plain atoms over the
-    outer (object) variables; the sub-query's variable is an int or object variable whose domain may hold falsy values"""
+    outer (object) variables; the sub-query's variable is an int or object variable whose domain may hold falsy values
+    (a sub-query variable shared with the enclosing query is a BOUND plain variable inside the sub-query: since the
+    repair of F-C01-3 its falsy values are operands like any other and no trigger excuses them)"""
     outer = ["x"] if rnd.random() < 0.6 else ["x", "z"]
     kinds = {v: "obj" for v in outer}
     ykind = "int" if rnd.random() < 0.7 else "obj"
